@@ -598,4 +598,90 @@ theorem root_eq (lk : Lookup) (name : Name) :
   unfold Spec.root
   cases stkOf lk name <;> rfl
 
+
+/-! ## the manager over time -/
+
+/-- the table is the one of the current sources and every rendered section is what collapsing would give now -/
+def MInv (m : Mgr) : Prop :=
+  m.lookup = buildLookup m.sources ∧ ∀ n c, m.cache.lookup n = some c → collapse m.lookup n = .ok c
+
+theorem minv_reload (m : Mgr) : MInv m.reload := by
+  refine ⟨rfl, ?_⟩
+  intro n c h
+  simp [Mgr.reload, List.lookup] at h
+
+theorem minv_init (s : List Source) : MInv (Mgr.init s) := minv_reload _
+
+theorem minv_step (m : Mgr) (op : MOp) (h : MInv m) : MInv (m.step op).1 := by
+  cases op with
+  | collapse n =>
+    simp only [Mgr.step]
+    cases hc : m.cache.lookup n with
+    | some c => exact h
+    | none =>
+      simp only
+      cases hcol : collapse m.lookup n with
+      | error e => exact h
+      | ok c =>
+        refine ⟨h.1, ?_⟩
+        intro n' c' hl
+        simp only [List.lookup] at hl
+        by_cases hn : n' = n
+        · subst hn
+          simp at hl
+          rw [← hl]; exact hcol
+        · have : (n' == n) = false := by simp [hn]
+          simp only [this] at hl
+          exact h.2 n' c' hl
+  | addSource src => exact minv_reload _
+  | reload => exact minv_reload _
+
+theorem minv_run (ops : List MOp) (m : Mgr) (h : MInv m) : MInv (Mgr.run m ops).1 := by
+  induction ops generalizing m with
+  | nil => exact h
+  | cons op ops ih => exact ih _ (minv_step m op h)
+
+/-- the sources after a history -/
+def sourcesAfter : List Source → List MOp → List Source
+  | s, [] => s
+  | s, .addSource src :: ops => sourcesAfter (s ++ [src]) ops
+  | s, .collapse _ :: ops => sourcesAfter s ops
+  | s, .reload :: ops => sourcesAfter s ops
+
+theorem run_sources (ops : List MOp) (m : Mgr) : (Mgr.run m ops).1.sources = sourcesAfter m.sources ops := by
+  induction ops generalizing m with
+  | nil => rfl
+  | cons op ops ih =>
+    simp only [Mgr.run]
+    rw [ih]
+    cases op with
+    | collapse n =>
+      simp only [Mgr.step, sourcesAfter]
+      cases m.cache.lookup n with
+      | some c => rfl
+      | none => simp only; cases collapse m.lookup n <;> rfl
+    | addSource src => rfl
+    | reload => rfl
+
+theorem mrun_append (m : Mgr) (xs ys : List MOp) :
+    Mgr.run m (xs ++ ys) = ((Mgr.run (Mgr.run m xs).1 ys).1, (Mgr.run m xs).2 ++ (Mgr.run (Mgr.run m xs).1 ys).2) := by
+  induction xs generalizing m with
+  | nil => simp [Mgr.run]
+  | cons x xs ih => simp [Mgr.run, ih]
+
+theorem mrun_length (m : Mgr) (xs : List MOp) : (Mgr.run m xs).2.length = xs.length := by
+  induction xs generalizing m with
+  | nil => simp [Mgr.run]
+  | cons x xs ih => simp [Mgr.run, ih]
+
+/-- under the invariant a collapse answers what the cache-less collapse over the current table answers -/
+theorem step_collapse_of_inv (m : Mgr) (h : MInv m) (n : Name) :
+    (m.step (.collapse n)).2 = some (collapse m.lookup n) := by
+  simp only [Mgr.step]
+  cases hc : m.cache.lookup n with
+  | some c => simp [h.2 n c hc]
+  | none =>
+    simp only
+    cases collapse m.lookup n <;> rfl
+
 end Pkgcore.C43
